@@ -328,7 +328,7 @@ class Check:
                     print('KNOWN-FINDING: property=%s %s' % (self.pid, f['what']))
                 return False
         self._replay_n += 1
-        d = os.path.join(ROOT, 'replays')
+        d = os.environ.get('TXV_REPLAY_DIR') or os.path.join(ROOT, 'replays')
         os.makedirs(d, exist_ok=True)
         path = os.path.join(d, '%s-%s-%d.json' % (self.pid, self.tier, self._replay_n))
         detail = dict(detail)
@@ -357,8 +357,11 @@ class Check:
         ev = dict(property_id=self.pid, tier=self.tier, seed=self.seed, level='model_checking',
                   coverage=cov, assumptions=self.assumptions,
                   wall_s=round(time.time() - self.t0, 2), violations=len(self.violations))
-        os.makedirs(os.path.join(ROOT, 'evidence'), exist_ok=True)
-        with open(os.path.join(ROOT, 'evidence', self.pid + '.json'), 'w') as fh:
+        # TXV_EVIDENCE_DIR / TXV_REPLAY_DIR: experiments (seeded trees, trial runs) write elsewhere so that
+        # evidence/ always describes a run against /repo itself
+        evdir = os.environ.get('TXV_EVIDENCE_DIR') or os.path.join(ROOT, 'evidence')
+        os.makedirs(evdir, exist_ok=True)
+        with open(os.path.join(evdir, self.pid + '.json'), 'w') as fh:
             json.dump(ev, fh, indent=1, default=repr)
         if self.violations:
             return 1
